@@ -198,7 +198,10 @@ func (s *sqlGen) column(t *TableInfo, names map[string]bool, primaries []*TableI
 		case 16, 17:
 			// named array / slice of basics or int enums
 			n := s.g.fresh("Arr")
-			elem := kernel.Pick(r, []string{"int", "int32", "int64", "string", "bool", "float64", "int16", "uint8"})
+			// (element types other than these make the generated converters
+			// ill-typed - []int16 is not convertible to pq.Int32Array - which
+			// is C01's business)
+			elem := kernel.Pick(r, []string{"int32", "int64", "string", "bool", "float64", "int32"})
 			if r.Chance(1, 4) {
 				e := s.supportEnum()
 				if !e.IsString {
@@ -260,6 +263,40 @@ func (s *sqlGen) column(t *TableInfo, names map[string]bool, primaries []*TableI
 }
 
 func (s *sqlGen) emitTable(t *TableInfo, tags map[string]string, comments []string, guards []string) {
+	// two references from one row to the same parent with different ON DELETE
+	// actions make the outcome of a delete depend on PostgreSQL's trigger
+	// order: keep one action per (table, target)
+	action := map[string]string{}
+	for i := range t.Columns {
+		c := &t.Columns[i]
+		if c.Kind != "fk" {
+			continue
+		}
+		if a, seen := action[c.FK]; seen && a != c.OnDelete {
+			if a == "SET NULL" && !c.Nullable {
+				a = ""
+				for j := 0; j < i; j++ {
+					if t.Columns[j].FK == c.FK {
+						t.Columns[j].OnDelete = ""
+						tags[t.Columns[j].Field] = stripOnDelete(tags[t.Columns[j].Field])
+					}
+				}
+				action[c.FK] = ""
+			}
+			c.OnDelete = a
+			tg := stripOnDelete(tags[c.Field])
+			if a != "" {
+				tg = strings.TrimSpace(tg + fmt.Sprintf(" gomacro-sql-on-delete:%q", a))
+			}
+			if tg == "" {
+				delete(tags, c.Field)
+			} else {
+				tags[c.Field] = tg
+			}
+		} else {
+			action[c.FK] = c.OnDelete
+		}
+	}
 	b := &s.tf.body
 	for _, c := range comments {
 		fmt.Fprintf(b, "// %s\n", c)
@@ -472,4 +509,18 @@ func (g *gen) sqlFiles() (*file, *file) {
 		g.prog.Tables = append(g.prog.Tables, *t)
 	}
 	return s.tf, s.sf
+}
+
+func stripOnDelete(tag string) string {
+	i := strings.Index(tag, "gomacro-sql-on-delete:")
+	if i < 0 {
+		return tag
+	}
+	rest := tag[i+len("gomacro-sql-on-delete:"):]
+	// rest starts with a quoted string
+	j := strings.Index(rest[1:], "\"")
+	if j < 0 {
+		return strings.TrimSpace(tag[:i])
+	}
+	return strings.TrimSpace(tag[:i] + rest[j+2:])
 }
